@@ -47,8 +47,8 @@ var HCluster = &sim.Harness{
 	Gen:      genCluster,
 	Body:     bodyCluster,
 	MaxSteps: 1500000,
-	Real:     []string{"jobs.Job / Registry / LivenessTracker / Assembly", "storage/snapshots.Store", "workers/sourcerunner (SourceRunner, operatorCluster, batchingOperator)", "workers/operator (all)", "workers/wmark", "connectors.ReadSourceChannel", "batching", "partitioning", "dkv (all)", "clocks.SystemClock / SystemTimer on the fake clock", "generated protobuf code"},
-	Stub:     []string{"connect/HTTP transport -> SimNet calling the same Handle* methods (503 retry, transport errors, kill, partition, lost request/response)", "workers.Worker -> identical composition of SourceRunner + Operator (workers.New cannot pass a SourceReaderFactory)", "source connector -> SimSource (splits with checkpointable cursors)", "user handler -> self-verifying reference handler", "storage -> SimDisk", "sinks -> discard"},
+	Real:     []string{"jobs.Job / Registry / LivenessTracker / Assembly", "storage/snapshots.Store", "workers/sourcerunner (SourceRunner, operatorCluster, batchingOperator)", "workers/operator (all)", "workers/wmark", "connectors.ReadSourceChannel", "batching", "partitioning", "dkv (all)", "clocks.SystemClock / SystemTimer on the fake clock", "generated protobuf code", "connectors/kinesis SourceSplitter / SplitTracker / SourceReader and the AWS SDK Kinesis client (Kinesis mode of C16 runs)"},
+	Stub:     []string{"connect/HTTP transport -> SimNet calling the same Handle* methods (503 retry, transport errors, kill, partition, lost request/response)", "workers.Worker -> identical composition of SourceRunner + Operator (workers.New cannot pass a SourceReaderFactory)", "source connector -> SimSource (splits with checkpointable cursors); in Kinesis mode the real connector over the repository's kinesisfake served in-process (hook K5, no sockets), reads paced by a wrapper", "user handler -> self-verifying reference handler", "storage -> SimDisk", "sinks -> discard"},
 }
 
 func genCluster(r *mrand.Rand, prop, tier string) simcore.Case {
@@ -125,6 +125,22 @@ func genCluster(r *mrand.Rand, prop, tier string) simcore.Case {
 				cs.Ops = append(cs.Ops, simcore.Op{K: "kill-worker", A: []int64{at, int64(r.IntN(3)), 1 + int64(r.IntN(20))}})
 			}
 		}
+	case "C16":
+		cs.Cfg["kin"] = pick(0, 1, 1)
+		cs.Cfg["reshards"] = pick(0, 1, 2, 3, 5)
+		cs.Cfg["kinpre"] = pick(0, 30, 60, 100)
+		cs.Cfg["discover_s"] = pick(2, 10, 10, 30)
+		if r.IntN(2) == 0 {
+			nf := 1 + r.IntN(2)
+			for i := 0; i < nf; i++ {
+				at := faultTime(r, horizon)
+				if r.IntN(4) == 0 {
+					cs.Ops = append(cs.Ops, simcore.Op{K: "kill-all", A: []int64{at, 0, 1 + int64(r.IntN(20)), 1}}) // job and every worker
+				} else {
+					cs.Ops = append(cs.Ops, simcore.Op{K: "kill-all", A: []int64{at, 0, 1 + int64(r.IntN(20)), 0}})
+				}
+			}
+		}
 	case "C14":
 		if r.IntN(2) == 0 {
 			// a recovery before the savepoint: the operators' checkpoints then reference
@@ -193,6 +209,16 @@ func bodyCluster(c *sim.Ctx) {
 		src.splits = append(src.splits, recs)
 	}
 	w.src = src
+	if c.Cfg("kin", 0) == 1 {
+		src.splits = nil
+		k, err := newKinWorld(w, src)
+		if err != nil {
+			c.Violate(prop+"/harness-stream-setup", "%v", err)
+			return
+		}
+		src.kin = k
+		S = len(src.splits)
+	}
 	w.h = newCluModel(c, src)
 	w.h.faults = len(c.Case.Ops) > 0 && (prop != "C14" || hasOp(c.Case.Ops, "kill-all"))
 
@@ -209,6 +235,9 @@ func bodyCluster(c *sim.Ctx) {
 		w.allPublished[jc.Id] = &jc
 		w.newestPub = max(w.newestPub, jc.Id)
 		w.mu.Unlock()
+		if src.kin != nil {
+			src.kin.onPublished(jc.Id)
+		}
 		c.Probe("job-checkpoint-published")
 	}
 
@@ -291,14 +320,21 @@ func (w *cluWorld) finalCheckpoint() (uint64, bool) {
 	}
 	pos := map[string]int64{}
 	for _, b := range jc.SourceCheckpoints[0].SplitStates {
-		var st simSplitState
-		if jsonUnmarshal(b, &st) != nil {
+		id, cur, ok := w.src.decodeState(b)
+		if !ok {
 			return 0, false
 		}
-		pos[st.SplitID] = st.Cursor
+		pos[id] = cur
 	}
 	for s, recs := range w.src.splits {
-		if pos[fmt.Sprint(s)] != int64(len(recs)) {
+		p, held := pos[w.src.splitID(s)]
+		if k := w.src.kin; k != nil && !held && k.closed[s] && k.finishedAhead(jc.Id, s) {
+			continue // a closed shard that was read to its end ahead of the barrier is no longer held by any reader
+		}
+		if p != int64(len(recs)) {
+			if os.Getenv("VERIF_DEBUG") != "" {
+				fmt.Fprintf(os.Stderr, "NOTFINAL ckpt=%d split=%d held=%v pos=%d len=%d\n", jc.Id, s, held, p, len(recs))
+			}
 			return 0, false
 		}
 	}
@@ -393,6 +429,9 @@ func (w *cluWorld) startWorker() *simWorker {
 		wk.sr = sourcerunner.New(sourcerunner.NewParams{
 			Host: host, UserHandler: h, Job: jobClient{w: w, from: host}, Clock: clocks.NewSystemClock(), OperatorFactory: opf, EventBatching: bp,
 			SourceReaderFactory: func(*jobconfigpb.Source) connectors.SourceReader {
+				if w.src.kin != nil {
+					return w.src.kin.newReader(host, func() string { return wk.srID })
+				}
 				return w.src.NewSourceReader(connectors.SourceReaderHooks{NotifySplitsFinished: func([]string) {}})
 			},
 		})
@@ -839,7 +878,7 @@ func (w *cluWorld) checkStreams() {
 					}
 					var s, i int
 					fmt.Sscanf(it2.rec, "%d:%d", &s, &i)
-					pcur, ok := cur[fmt.Sprint(s)]
+					pcur, ok := cur[w.src.splitID(s)]
 					if !ok {
 						continue
 					}
@@ -865,6 +904,9 @@ func (w *cluWorld) checkAssignments() {
 	c, prop := w.c, w.prop
 	w.mu.Lock()
 	defer w.mu.Unlock()
+	if w.src.kin != nil {
+		return // hand-outs of the Kinesis splitter are checked as they happen (kinWorld.onAssign)
+	}
 	w.src.mu.Lock()
 	defer w.src.mu.Unlock()
 	var rounds []int
@@ -979,9 +1021,9 @@ func (w *cluWorld) lastRecordDelivery(srID string) (time.Duration, bool) {
 	for _, a := range w.assigns {
 		if a.srID == srID {
 			for sp := range a.splits {
-				var idx int
-				fmt.Sscanf(sp, "%d", &idx)
-				want += len(w.src.splits[idx])
+				if idx, ok := w.src.splitIndex(sp); ok {
+					want += len(w.src.splits[idx])
+				}
 			}
 		}
 	}
